@@ -89,6 +89,7 @@ pub fn fuzz_targets(id: &str) -> Vec<(&'static str, &'static str, u64)> {
         "C13" => vec![("dyntick", "random_sequences", 1_500_000)],
         "C16" => vec![("tlvfee", "fee_functions", 10_000_000)],
         "C19" => vec![("mintadmit", "mints", 400_000)],
+        "C20" => vec![("sdkmath", "math_functions", 24_000_000)],
         _ => vec![],
     }
 }
